@@ -383,4 +383,15 @@ Proof.
     + intros m'. destruct (Nat.eqb_spec m' m); subst; cbn; [lia|apply LOG].
     + intros r Hr'. specialize (TB _ Hr'). lia.
     + intros r te Hr' Hg. destruct (TE _ _ Hr' Hg). lia.
+  - (* LTermEnd *)
+    destruct (locked (mems s m)) eqn:El; [discriminate|].
+    assert (Hri : ur (mems s m) = RIdle) by (unfold locked in El; destruct (ur (mems s m)); try discriminate; reflexivity).
+    destruct (ctl (mems s m)) eqn:Ectl; try discriminate; inj.
+    all: (constructor; cbn; unfold upd_f; [exact E1|exact E4|exact GR| | | | |exact ORD|exact CNT| | |exact SRT]).
+    all: try solve [ intros m' p Ho Hp; destruct (Nat.eqb_spec m' m); subst; cbn in *; [discriminate|eapply E5; eauto] ].
+    all: try solve [ intros m' n Ho Hs; destruct (Nat.eqb_spec m' m); subst; cbn in *; eapply E5s; eauto ].
+    all: try solve [ intros m' up ul; destruct (Nat.eqb_spec m' m); subst; cbn; [rewrite Hri; discriminate|apply URA] ].
+    all: try solve [ intros m'; destruct (Nat.eqb_spec m' m); subst; cbn; [lia|apply LOG] ].
+    all: try solve [ intros r Hr'; specialize (TB _ Hr'); lia ].
+    all: try solve [ intros r te Hr' Hg; destruct (TE _ _ Hr' Hg); lia ].
 Qed.
